@@ -301,3 +301,62 @@ pub fn illdim(tr: &mut Tr, g: &mut G) {
         }
     }
 }
+
+/// The same comparisons, conversions and setters as api.rs, with wrong units, on the edge pools.
+pub fn illdim_edges(tr: &mut Tr, g: &mut G, full: bool) {
+    use crate::api::{eq_mask, f32_conv_pool, f32_edge_pool, f32_pairs, ord_mask};
+    let m1 = g.range(-2, 2) as i8;
+    let s1 = g.range(-2, 2) as i8;
+    let u1 = Unit::new(m1, s1);
+    let u2 = unit_not(g, m1, s1);
+    for (p, q) in f32_pairs(g, full) {
+        let (qa, qb) = (Quantity::new(p, u1), Quantity::new(q, u2));
+        ui(tr, "ill.cmp.eq", || eq_mask(&qa, &qb), eq_mask(&p, &q));
+        ui(tr, "ill.cmp.ord", || ord_mask(&qa, &qb), ord_mask(&p, &q));
+        let (da, db) = (Datum::new(Time(3), qa), Datum::new(Time(3), qb));
+        ui(tr, "ill.cmp.datum_eq", || eq_mask(&da, &db), eq_mask(&p, &q));
+    }
+    let (wd, ws) = (unit_not(g, 0, 0), unit_not(g, 0, 1));
+    for x in f32_conv_pool(g, full) {
+        match catch(|| DimensionlessInteger::try_from(Quantity::new(x, wd))) {
+            None => tr.u_word("ill.edge.int_try_from", "", "panic"),
+            Some(Err(())) => tr.u_word("ill.edge.int_try_from", "", "rejected"),
+            Some(Ok(n)) => tr.u_i("ill.edge.int_try_from", "", n.0, x as i64),
+        }
+        match catch(|| Time::try_from(Quantity::new(x, ws))) {
+            None => tr.u_word("ill.edge.time_try_from", "", "panic"),
+            Some(Err(())) => tr.u_word("ill.edge.time_try_from", "", "rejected"),
+            Some(Ok(t)) => tr.u_i("ill.edge.time_try_from", "", t.0, (x * 1_000_000_000.0) as i64),
+        }
+    }
+    let s0 = g.st(1e3);
+    let wrong = [unit_not(g, 1, -2), unit_not(g, 1, -1), unit_not(g, 1, 0)];
+    for x in f32_edge_pool(g, full) {
+        for (which, tag) in ["ill.edge.set_acc", "ill.edge.set_vel", "ill.edge.set_pos"].into_iter().enumerate() {
+            let q = Quantity::new(x, wrong[which]);
+            let r = catch(|| {
+                let mut s = s0;
+                let r = match which {
+                    0 => s.set_constant_acceleration(q),
+                    1 => s.set_constant_velocity(q),
+                    _ => s.set_constant_position(q),
+                };
+                (r, s)
+            });
+            match r {
+                None => tr.u_word(tag, "", "panic"),
+                Some((Err(()), _)) => tr.u_word(tag, "", "rejected"),
+                Some((Ok(()), s)) => {
+                    let want = match which {
+                        0 => State::new_raw(s0.position, s0.velocity, x),
+                        1 => State::new_raw(s0.position, x, 0.0),
+                        _ => State::new_raw(x, 0.0, 0.0),
+                    };
+                    tr.u_f(tag, ".p", s.position, want.position);
+                    tr.u_f(tag, ".v", s.velocity, want.velocity);
+                    tr.u_f(tag, ".a", s.acceleration, want.acceleration);
+                }
+            }
+        }
+    }
+}
